@@ -2,7 +2,8 @@ package main
 
 // C18 runtime leg: `harness gcstress <seed> [nkeys]`.
 //
-// For every combination of value type (*T, string, []byte, struct{}, [25]uint64) and key
+// For every combination of value type (*T, string, []byte, struct{}, [25]uint64; and, for three key kinds, values whose
+// pointers sit inside a composite: [2]*T, [2]string, a struct holding such arrays, any, map, *[]string, [1][]byte) and key
 // kind (alpha string, alpha []byte, uint64, int16, float64, collation string, compound)
 // a tree is filled through the public constructors with keys and values that are built
 // freshly for every call and dropped by the harness right after it — so the tree's own
@@ -244,6 +245,38 @@ func gcOdd[K any](st *gcStats, ks gcKeys[K], t1 art.Tree[K, bool], t2 art.Tree[K
 	gcRun(st, ks, "int16", gvInt16, t4)
 }
 
+// value types whose pointers sit INSIDE a composite (array of pointers, array of strings, struct holding such an
+// array, interface, map, pointer to a slice, array of slices): a leaf allocator that decides "this value type holds
+// no pointers" by looking at the outermost kind only hands such leaves to memory the collector does not scan
+type gcNest struct {
+	A [1]*gcT
+	N int
+	B [2]string
+}
+
+var (
+	gvArrPtr = func(k string, g int) [2]*gcT { return [2]*gcT{gvPtr(k, g), gvPtr(k+"'", g+1)} }
+	gvArrStr = func(k string, g int) [2]string { return [2]string{gvStr(k, g), gvStr(k, g+7)} }
+	gvNest   = func(k string, g int) gcNest {
+		return gcNest{A: [1]*gcT{gvPtr(k, g)}, N: g, B: [2]string{gvStr(k, g), gvStr(k+"#", g)}}
+	}
+	gvIface  = func(k string, g int) any { return gvPtr(k, g) }
+	gvMap    = func(k string, g int) map[string]*gcT { return map[string]*gcT{gvStr(k, g): gvPtr(k, g)} }
+	gvPtrSl  = func(k string, g int) *[]string { s := []string{gvStr(k, g), gvStr(k, g+1)}; return &s }
+	gvArrSl  = func(k string, g int) [1][]byte { return [1][]byte{gvBytes(k, g)} }
+)
+
+func gcComposite[K any](st *gcStats, ks gcKeys[K], t1 art.Tree[K, [2]*gcT], t2 art.Tree[K, [2]string], t3 art.Tree[K, gcNest],
+	t4 art.Tree[K, any], t5 art.Tree[K, map[string]*gcT], t6 art.Tree[K, *[]string], t7 art.Tree[K, [1][]byte]) {
+	gcRun(st, ks, "[2]*T", gvArrPtr, t1)
+	gcRun(st, ks, "[2]string", gvArrStr, t2)
+	gcRun(st, ks, "struct{[1]*T;int;[2]string}", gvNest, t3)
+	gcRun(st, ks, "any", gvIface, t4)
+	gcRun(st, ks, "map[string]*T", gvMap, t5)
+	gcRun(st, ks, "*[]string", gvPtrSl, t6)
+	gcRun(st, ks, "[1][]byte", gvArrSl, t7)
+}
+
 func gcMain(args []string) int {
 	seed, nkeys := uint64(1), 300
 	if len(args) > 0 {
@@ -308,6 +341,17 @@ func gcMain(args []string) int {
 		mk: func(i int) uint64 { return parseU(up[i]) }, show: showU},
 		art.NewUnsignedBinaryTree[uint64, bool](), art.NewUnsignedBinaryTree[uint64, [3]byte](), art.NewUnsignedBinaryTree[uint64, [5]byte](), art.NewUnsignedBinaryTree[uint64, int16]())
 
+	gcComposite(st, gcKeys[uint64]{name: "uint64", canon: up, rng: true,
+		mk: func(i int) uint64 { return parseU(up[i]) }, show: showU},
+		art.NewUnsignedBinaryTree[uint64, [2]*gcT](), art.NewUnsignedBinaryTree[uint64, [2]string](), art.NewUnsignedBinaryTree[uint64, gcNest](),
+		art.NewUnsignedBinaryTree[uint64, any](), art.NewUnsignedBinaryTree[uint64, map[string]*gcT](), art.NewUnsignedBinaryTree[uint64, *[]string](),
+		art.NewUnsignedBinaryTree[uint64, [1][]byte]())
+	gcComposite(st, gcKeys[[]byte]{name: "alpha/[]byte", canon: ap, rng: true,
+		mk: func(i int) []byte { return bytes.Clone(ab[i]) }, show: xhex},
+		art.NewAlphaSortedTree[[]byte, [2]*gcT](), art.NewAlphaSortedTree[[]byte, [2]string](), art.NewAlphaSortedTree[[]byte, gcNest](),
+		art.NewAlphaSortedTree[[]byte, any](), art.NewAlphaSortedTree[[]byte, map[string]*gcT](), art.NewAlphaSortedTree[[]byte, *[]string](),
+		art.NewAlphaSortedTree[[]byte, [1][]byte]())
+
 	// collation (string keys, German collator); Range is left unspecified for collation trees
 	_, cp := pool(kindSpec{"coll", "string:de"}, min(nkeys, 160))
 	co := make([][]byte, len(cp))
@@ -324,6 +368,8 @@ func gcMain(args []string) int {
 		art.NewCollationSortedTree[string, []byte](art.WithCollator[string, []byte](collatorByName("de"))),
 		art.NewCollationSortedTree[string, struct{}](art.WithCollator[string, struct{}](collatorByName("de"))),
 		art.NewCollationSortedTree[string, [25]uint64](art.WithCollator[string, [25]uint64](collatorByName("de"))))
+	gcRun(st, cks, "[2]*T", gvArrPtr, art.NewCollationSortedTree[string, [2]*gcT](art.WithCollator[string, [2]*gcT](collatorByName("de"))))
+	gcRun(st, cks, "struct{[1]*T;int;[2]string}", gvNest, art.NewCollationSortedTree[string, gcNest](art.WithCollator[string, gcNest](collatorByName("de"))))
 
 	// compound (the schema is drawn from the seed; a string field is appended so that key lengths vary)
 	ckind, tp := pool(kindSpec{"comp:" + (&gen{r: &rng{seedFor(seed, "gc:schema", 0)}}).schemaWithString(), ""}, nkeys)
